@@ -34,6 +34,10 @@ def base_env(hashseed: int, repo: str, extra: dict | None = None) -> dict:
         "TERM": "dumb",
         "COLUMNS": "200",
     }
+    if hashseed == 3:
+        # process configuration 3 of the four default ones also runs the interpreter optimised (python -O): `assert`
+        # statements - in the generator AND in the generated client that the run imports - are compiled out
+        env["PYTHONOPTIMIZE"] = "1"
     for k in ("VERIF_WORKER_QUIET", "VERIF_SHM"):
         if k in os.environ:
             env[k] = os.environ[k]
